@@ -28,6 +28,24 @@ def accessors(exp):
     return out
 
 
+def indexed_accessors(exp):
+    """enum-indexed guid-array accessors of UpdatePlayer: [(setter, getter, enum path, enumerator values)] -- `set_x(&mut self, slot: crate::<exp>::E, item: Guid)`
+    whose body computes the offset from the enumerator.  The offset expression itself is NOT trusted: the harness calls the accessor
+    for every enumerator and the model places the guid at published offset + 2 * value."""
+    src = open(os.path.join(REPO, f"wow_world_messages/src/helper/{exp}/update_mask/impls.rs")).read()
+    m = re.search(r"^impl UpdatePlayer \{\n(.*?)^\}", src, re.S | re.M)
+    out = []
+    for fm in re.finditer(r"pub fn (set_\w+)\(&mut self, (\w+): crate::" + exp + r"::(\w+), (\w+): Guid\) \{", m.group(1) if m else ""):
+        en = fm.group(3)
+        snake = re.sub(r"(?<!^)(?=[A-Z])", "_", en).lower()
+        ef = os.path.join(REPO, f"wow_world_base/src/inner/{exp}/{snake}.rs")
+        if not os.path.exists(ef):
+            continue
+        vals = [int(x, 0) for x in re.findall(r"^///     [A-Z_0-9]+ = (0x[0-9a-fA-F]+|\d+);", open(ef).read(), re.M)]
+        out.append((fm.group(1), fm.group(1)[4:], en, sorted(set(vals))))
+    return out
+
+
 def doc_table(version_heading):
     """{object class: {FIELD: (offset, size, TYPE)}} from update-mask.md for one version section"""
     txt = open(os.path.join(REPO, "wowm_language/src/types/update-mask.md")).read()
@@ -82,7 +100,7 @@ def check_tables(exp, version_heading):
 
 def gen_harness():
     out = ["// @generated by /verif/tools/update_mask_tables.py — do not edit", "#![allow(clippy::all, unused)]", "use wow_world_messages::Guid;", "",
-           "pub enum UmOp { Set(u16, u32), Guid(u16, u32, u32), Reset, Mark }", "",
+           "pub enum UmOp { Set(u16, u32), Guid(u16, u32, u32), Idx(u32, u32, u32), Reset, Mark }", "",
            "pub fn um_run(exp: &str, kind: &str, ops: &[UmOp]) -> Option<Result<(Vec<u8>, String), String>> {", "    match (exp, kind) {"]
     chosen = {}
     for exp in ("vanilla", "tbc", "wrath"):
@@ -113,6 +131,19 @@ def gen_harness():
                     out.append(f"                        {bit} => m.{s[0]}(Guid::new((*lo as u64) | ((*hi as u64) << 32))),")
             out.append('                        _ => return Err(format!("noguidsetter {bit}")),')
             out.append("                    },")
+            idx = indexed_accessors(exp) if k == "Player" else []
+            if idx:
+                st, gt, en, _vals = idx[0]
+                out.append(f"                    UmOp::Idx(slot, lo, hi) => match wow_world_messages::{exp}::{en}::try_from(*slot as u8) {{")
+                out.append("                        Ok(sl) => {")
+                out.append("                            let g = Guid::new((*lo as u64) | ((*hi as u64) << 32));")
+                out.append(f"                            m.{st}(sl, g);")
+                out.append(f"                            if m.{gt}(sl) != Some(g) {{ return Err(format!(\"getter-after-setter {{slot}}\")); }}")
+                out.append("                        }")
+                out.append('                        Err(_) => return Err(format!("noenumerator {slot}")),')
+                out.append("                    },")
+            else:
+                out.append('                    UmOp::Idx(slot, _, _) => return Err(format!("noindexed {slot}")),')
             out.append("                    UmOp::Reset => m.dirty_reset(),")
             out.append("                    UmOp::Mark => m.mark_fully_dirty(),")
             out.append("                }")
